@@ -440,6 +440,10 @@ fn growth(ctx: &Ctx) {
     ("parse_format:group_nesting", |n| ("parse", String::new(), format!("a = [ {} ]\n", nest("( ", " )", n, "int, tstr")).into_bytes())),
     ("parse_format:paren_type_nesting", |n| ("parse", String::new(), format!("a = {}\n", nest("( ", " )", n, "int / tstr")).into_bytes())),
     ("parse_format:group_choices_nested", |n| ("parse", String::new(), format!("a = {}\n", nest("[ int // ", " ]", n, "tstr")).into_bytes())),
+    // rejected texts: n unclosed brackets (an editor buffer while typing)
+    ("parse_rejected:unclosed_arrays", |n| ("parse", String::new(), format!("a = {}", "[".repeat(n)).into_bytes())),
+    ("parse_rejected:unclosed_maps", |n| ("parse", String::new(), format!("a = {}", "{".repeat(n)).into_bytes())),
+    ("parse_rejected:unclosed_keyed_maps", |n| ("parse", String::new(), format!("a = {}", "{ k: ".repeat(n)).into_bytes())),
     ("parse_format:type_choices", |n| ("parse", String::new(), format!("a = {}\n", vec!["int"; 8 * n].join(" / ")).into_bytes())),
     ("parse_format:rules", |n| ("parse", String::new(), (0..8 * n).map(|i| format!("r{} = [ * r{} ]\n", i, i + 1)).collect::<String>().into_bytes())),
     ("validate_json:array_nesting", |n| ("json", format!("a = {}\n", nest("[ ", " ]", n, "int")), nest("[", "]", n, "1").into_bytes())),
@@ -471,6 +475,7 @@ fn growth(ctx: &Ctx) {
   let kf_display = ctx.excl("display_nested_groups_exponential");
   let kf_json_rec = ctx.excl("json_recursive_choice_exponential_time");
   let kf_cbor_rec = ctx.excl("cbor_recursive_schema_exponential_time");
+  let kf_unclosed = ctx.excl("parse_exponential_on_unclosed_brackets");
   sweep(ctx, "growth", &fams, |fi, st| {
     let (name, gen) = &families[*fi];
     let mut times: Vec<(usize, f64)> = vec![];
@@ -481,6 +486,10 @@ fn growth(ctx: &Ctx) {
         Some(dt) => times.push((n, dt)),
         None => {
           // crash or limit: decide by known findings
+          if name.starts_with("parse_rejected") && kf_unclosed {
+            st.exclude("parse_exponential_on_unclosed_brackets");
+            break;
+          }
           let known = (name.starts_with("parse_format") && kf_display)
             || (name.contains("validate_json") && name.contains("recurs") && kf_json_rec)
             || (name.contains("validate_cbor") && name.contains("recurs") && kf_cbor_rec);
@@ -513,6 +522,7 @@ fn growth(ctx: &Ctx) {
     st.nontrivial(&format!("{}#2", name));
     if geometric {
       let known = (name.starts_with("parse_format") && kf_display)
+        || (name.starts_with("parse_rejected") && kf_unclosed)
         || (name.contains("validate_json") && name.contains("recurs") && kf_json_rec)
         || (name.contains("validate_cbor") && name.contains("recurs") && kf_cbor_rec);
       if known {
